@@ -106,9 +106,9 @@ def space(tier):
 def plan(tier, seed):
     n = space(tier)
     if tier == 'quick':
-        return {'n': n, 'deadline': 150, 'case_timeout': 60,
-                'floor': {'distinct_nontrivial': 1500, 'forked_children': 250, 'cases': 3000, 'limit_struck': 800, 'projection_faults': 1500,
-                          'complete_results_confirmed': 500, 'setrecursionlimit_calls_seen': 6000, 'variables_checked': 3000}}
+        return {'n': n, 'deadline': 150, 'case_timeout': 60, 'nshards': 8,
+                'floor': {'distinct_nontrivial': 800, 'forked_children': 100, 'cases': 1500, 'limit_struck': 300, 'projection_faults': 700,
+                          'complete_results_confirmed': 300, 'setrecursionlimit_calls_seen': 3000, 'variables_checked': 3000}}
     return {'n': n, 'deadline': 560, 'case_timeout': 60,
             'floor': {'distinct_nontrivial': 4000, 'forked_children': 600, 'cases': 7000, 'limit_struck': 2500, 'projection_faults': 4000,
                       'complete_results_confirmed': 1500, 'setrecursionlimit_calls_seen': 16000, 'variables_checked': 8000}}
